@@ -1,3 +1,4 @@
+from common import guarded
 """C05  Quantile follows the P-square algorithm exactly once five observations are in.  Engine RS."""
 import terms as tm
 from terms import T, INT, UINT, REAL, TRUE, FALSE, And, Not, Or, real, ite
@@ -159,6 +160,8 @@ def run(tier, seed):
     init_and_accessors(pr, cr)
     import vl
     pr.obs += vl.run_lemmas("C05", ["stagewise"])
+    import rs_crosscheck
+    pr.obs += guarded("C05.engine.rs_crosscheck", lambda: rs_crosscheck.crosscheck("C05", ['Quantile']))
     meta = {
         "level": "proof",
         "checker_cmd": "./check C05 (rsx -> RS executor, stage-wise on the real body of Quantile::add -> z3)",
